@@ -601,6 +601,71 @@ def ret_as_predicate(W, fnpath):
     return r
 
 
+ITER_DRIVERS = ("map", "for_each", "filter_map", "flat_map", "try_for_each")
+
+
+def spawn_contexts(ctx, W, crate_prefix="roughenough_server"):
+    """Every thread spawn of the server binary, wherever it is written: directly in main, in a helper (new helpers are inlined into main),
+    or in a closure run by an iterator adaptor (`(0..n).map(|i| .. spawn ..).collect()`).
+    Returns dicts: fn (function or closure containing the spawn call), ev, bb, term, entry (the new thread's closure path or None),
+    looped (bool), range (term the loop / iterator runs over, or None), body (blocks executed once per iteration),
+    main_bb (block of main at which the spawn, or the iterator chain that runs it, sits) or None."""
+    P = ctx.prog
+    main = P.fns.get(crate_prefix + "::main")
+    out = []
+    for f in P.fns.values():
+        if not f.path.startswith(crate_prefix):
+            continue
+        ev = None
+        for bb, t in f.calls():
+            if callee_name(t["fn"].get("path", "")) not in ("spawn", "spawn_unchecked", "spawn_scoped") or "thread" not in t["fn"].get("path", ""):
+                continue
+            ev = ev or W.ev(f.path)
+            clos = [c for c in (t.get("closures") or []) if not c.startswith("fn:")]
+            d = {"fn": f, "ev": ev, "bb": bb, "term": t, "entry": clos[0] if clos else None, "looped": False, "range": None, "body": set(), "main_bb": None}
+            loops = f.in_loop(bb)
+            if loops:
+                lp = min(loops, key=lambda l: len(l["body"]))
+                d["looped"] = True
+                d["body"] = set(lp["body"])
+                nxt = [b2 for b2, t2 in f.calls() if b2 in lp["body"] and callee_name(t2["fn"].get("path", "")) == "next"]
+                if nxt:
+                    src = W.expand(ev.call_args(nxt[0])[0])
+                    while isinstance(src, tuple) and src and src[0] == "reader":
+                        src = src[1]
+                    d["range"] = src
+            owner_fn, owner_bb = f, bb
+            if "{closure" in f.path:
+                # a closure: who runs it, and over what?
+                for (o, b2) in P.closure_sites(f.path)[:1]:
+                    oev = W.ev(o.path)
+                    t2 = o.blocks[b2].term
+                    if True:
+                        if True:
+                            owner_fn, owner_bb = o, b2
+                            if callee_name(t2["fn"].get("path", "")) in ITER_DRIVERS and not loops:
+                                src = W.expand(oev.call_args(b2)[0])
+                                for _ in range(4):
+                                    while isinstance(src, tuple) and src and src[0] == "reader":
+                                        src = src[1]
+                                    if is_call(src) and callee_name(src[1]) in ("into_iter", "iter", "by_ref", "rev") and src[2]:
+                                        src = W.expand(src[2][0])
+                                d["looped"] = True
+                                d["range"] = src
+                                d["body"] = set(f.reachable())
+            # locate in main
+            for _ in range(4):
+                if main is not None and owner_fn.path == main.path:
+                    d["main_bb"] = owner_bb
+                    break
+                cs = P.callers(owner_fn.path)
+                if len(cs) != 1:
+                    break
+                owner_fn, owner_bb = P.fns[cs[0][0]], cs[0][1]
+            out.append(d)
+    return out
+
+
 def value_holders(fn, call_bb):
     """Locals that (may) hold the value returned by the call in block call_bb, or a part of it: the destination, the results of
     unwrap/expect/`?` applied to it, and locals it is moved into (also out of an enum payload)."""
